@@ -989,3 +989,13 @@ M("C11-rename-after-recording", "C11", "src/interrogate/interfaceMaker.cxx",
 M("C11-benign-name-locals", "C11", "src/interrogate/interfaceMaker.cxx",
   "      remap->_unique_name =\n        get_unique_prefix() + _def->library_hash_name + remap->_hash;", "      const std::string tail = _def->library_hash_name + remap->_hash;\n      remap->_unique_name = get_unique_prefix() + tail;",
   benign=True)
+
+M("C05-make-seq-keyed-by-local-name", "C05", "src/interrogate/interrogateBuilder.cxx",
+  "  string make_seq_name = make_seq->get_local_name(&parser);", "  string make_seq_name = make_seq->get_local_name(struct_type->get_scope());",
+  expect="R05.7|InterrogateBuilder::get_make_seq|_make_seqs_by_name|key")
+M("C05-property-keyed-by-simple-name", "C05", "src/interrogate/interrogateBuilder.cxx",
+  "  string property_name = make_property->get_local_name(&parser);", "  string property_name = make_property->get_simple_name();",
+  expect="R05.7|InterrogateBuilder::get_make_property|_properties_by_name|key")
+M("C05-benign-make-seq-key-scoped", "C05", "src/interrogate/interrogateBuilder.cxx",
+  "  string make_seq_name = make_seq->get_local_name(&parser);", "  string make_seq_name = make_seq->get_fully_scoped_name();",
+  benign=True)
